@@ -62,6 +62,7 @@ CHECKS = {
         units=[
             R("TestC10_Hostile", 80000, 3000000),
             R("TestC10_AllTruncations", 1600, 40000),
+            P("TestC10_ZeroFill", shards=14),
             P("TestC10_KnownFindings"),
             F("FuzzC10", "120s"),
         ],
@@ -78,6 +79,7 @@ CHECKS = {
             R("TestC13_Signature", 30000, 1000000),
             R("TestC13_Gate", 20000, 600000),
             R("TestC13_SeveralIntegrations", 16000, 400000, shards=8),
+            R("TestC13_StoredIntegrations", 4800, 120000, shards=8),
         ],
     ),
     "C01": dict(
